@@ -18,6 +18,9 @@ import itertools
 
 from harness import core
 from harness import isoapi
+import os
+import shutil
+import tempfile
 
 LEAN_MODULES = ['Pycdlib.Props.C13']
 THEOREMS = ['Pycdlib.check_file_iff', 'Pycdlib.check_dir_iff', 'Pycdlib.check_refusal_documented',
@@ -136,9 +139,157 @@ def run_fn(ctx):
     ctx.traces_validated += len(reqs)
 
 
+def scenario(ctx, tmpdir, cfg, ops, label):
+    """Run ops; every refusal must be InvalidInput at the edit; the image must master; identifiers must be unique and legal."""
+    rp = {'kind': 'history', 'cfg': cfg, 'ops': ops, 'label': label}
+    with isoapi.frozen_time():
+        iso = isoapi.new_iso(cfg)
+        results = []
+        for op in ops:
+            res = isoapi.apply_op(iso, op)
+            results.append(res)
+            if res not in ('ok', 'invalidInput'):
+                ctx.violation('C13.refusal/%s/%s' % (op['op'], res), '%s: edit %s raised %s instead of PyCdlibInvalidInput' % (label, _short(op), res), rp)
+        if any(r != 'ok' for r in results):
+            # what a refused call leaves behind is C14's subject: master the accepted edits only
+            try:
+                iso.close()
+            except Exception:
+                pass
+            iso = isoapi.new_iso(cfg)
+            for op, r in zip(ops, results):
+                if r == 'ok':
+                    isoapi.apply_op(iso, op)
+        path = os.path.join(tmpdir, 's%d.iso' % ctx.rng.randrange(10 ** 12))
+        try:
+            iso.write(path)
+        except Exception as e:  # noqa
+            ctx.violation('C13.accepted-then-write-fails/%s/%s' % (label.split(':')[0], type(e).__name__),
+                          '%s: edits %s were accepted, then write fails: %s %s' % (label, results, type(e).__name__, str(e)[:80]), rp)
+            return results
+        finally:
+            try:
+                iso.close()
+            except Exception:
+                pass
+    rep = isoapi.read_image(ctx, path)
+    os.unlink(path)
+    for e in rep.errs:
+        code = e.split(':')[0]
+        if code in ('duplicate-identifier', 'udf-duplicate-name', 'ident-overruns-record', 'empty-identifier', 'joliet-identifier-too-long',
+                    'joliet-odd-identifier-length', 'multi-extent-ident-mismatch'):
+            ctx.violation('C13.image/%s' % code, '%s: written image has %s' % (label, e[:120]), rp)
+    # a small file silently chained as a multi-extent continuation of another one shows up as ONE entry with the summed length
+    if label.startswith('dup-iso-file') and results.count('ok') == 2:
+        ctx.violation('C13.unique/add_fp/iso/duplicate-file-chained', '%s: a second file with an existing identifier was accepted (chained as multi-extent)' % label, rp)
+    if label.startswith('dup-') and results[-1] == 'ok' and not label.startswith('dup-iso-file'):
+        ctx.violation('C13.unique/%s' % label.split(':')[0], '%s: duplicate name accepted' % label, rp)
+    # identifiers legal for the level (the reader's identifiers fed to the proved-equivalent predicate)
+    lvl = cfg.get('ilevel', 1)
+    reqs = []
+    for ent in rep.entries:
+        f = ent.split(':')
+        if f[0] == 'I' and f[1] in ('F', 'D'):
+            last = f[2].split('/')[-1]
+            if last:
+                reqs.append('%s %d %s' % ('chkfile' if f[1] == 'F' else 'chkdir', lvl, last))
+    if reqs:
+        for rq, ans in zip(reqs, ctx.driver.ask(reqs)):
+            if ans != 'ok':
+                ctx.violation('C13.image/illegal-identifier', '%s: identifier %s in the written image is not legal at level %d' % (label, rq.split()[-1], lvl), rp)
+    return results
+
+
+def _short(op):
+    return {k: (v if not isinstance(v, str) or len(v) < 30 else v[:27] + '...') for k, v in op.items()}
+
+
+def run_api(ctx):
+    rng = ctx.rng
+    tmpdir = tempfile.mkdtemp(prefix='verif-c13-')
+    try:
+        n = 0
+        for lvl in (1, 3, 4):
+            base = {'ilevel': lvl, 'joliet': None, 'rr': None, 'udf': None, 'xa': False}
+            f1 = '/FOO.;1'
+            d1 = '/DIR1'
+            for label, ops in (
+                ('dup-iso-file:L%d' % lvl, [{'op': 'addfp', 'cid': 1, 'n': 5, 'iso': f1}, {'op': 'addfp', 'cid': 2, 'n': 7, 'iso': f1}]),
+                ('dup-iso-dir:L%d' % lvl, [{'op': 'adddir', 'iso': d1}, {'op': 'adddir', 'iso': d1}]),
+                ('dup-iso-file-over-dir:L%d' % lvl, [{'op': 'adddir', 'iso': d1}, {'op': 'addfp', 'cid': 1, 'n': 5, 'iso': d1}]),
+                ('dup-iso-dir-over-file:L%d' % lvl, [{'op': 'addfp', 'cid': 1, 'n': 5, 'iso': '/DIR1'}, {'op': 'adddir', 'iso': d1}]),
+                ('dup-iso-link:L%d' % lvl, [{'op': 'addfp', 'cid': 1, 'n': 5, 'iso': f1}, {'op': 'addfp', 'cid': 2, 'n': 5, 'iso': '/BAR.;1'},
+                                            {'op': 'addlink', 'ons': 'i', 'old': '/BAR.;1', 'nns': 'i', 'new': f1}]),
+                ('readd-after-rm:L%d' % lvl, [{'op': 'addfp', 'cid': 1, 'n': 5, 'iso': f1}, {'op': 'rmfile', 'ns': 'i', 'path': f1},
+                                              {'op': 'addfp', 'cid': 2, 'n': 6, 'iso': f1}]),
+            ):
+                scenario(ctx, tmpdir, base, ops, label)
+                ctx.count(key=label, kind='api:' + label.split(':')[0])
+                n += 1
+        jb = {'ilevel': 3, 'joliet': 3, 'rr': None, 'udf': None, 'xa': False}
+        for label, ops in (
+            ('dup-joliet-file', [{'op': 'addfp', 'cid': 1, 'n': 5, 'iso': '/A.;1', 'joliet': '/a'}, {'op': 'addfp', 'cid': 2, 'n': 5, 'iso': '/B.;1', 'joliet': '/a'}]),
+            ('dup-joliet-dir', [{'op': 'adddir', 'iso': '/A', 'joliet': '/a'}, {'op': 'adddir', 'iso': '/B', 'joliet': '/a'}]),
+            ('dup-joliet-link', [{'op': 'addfp', 'cid': 1, 'n': 5, 'iso': '/A.;1', 'joliet': '/a'}, {'op': 'addlink', 'ons': 'i', 'old': '/A.;1', 'nns': 'j', 'new': '/a'}]),
+            ('other-namespace-same-name', [{'op': 'addfp', 'cid': 1, 'n': 5, 'iso': '/A.;1'}, {'op': 'addfp', 'cid': 2, 'n': 5, 'joliet': '/A.;1'}]),
+        ):
+            scenario(ctx, tmpdir, jb, ops, label)
+            ctx.count(key=label, kind='api:' + label)
+        ub = {'ilevel': 3, 'joliet': None, 'rr': None, 'udf': '2.60', 'xa': False}
+        for label, ops in (
+            ('dup-udf-file', [{'op': 'addfp', 'cid': 1, 'n': 5, 'iso': '/A.;1', 'udf': '/a'}, {'op': 'addfp', 'cid': 2, 'n': 5, 'iso': '/B.;1', 'udf': '/a'}]),
+            ('dup-udf-dir', [{'op': 'adddir', 'iso': '/A', 'udf': '/a'}, {'op': 'adddir', 'iso': '/B', 'udf': '/a'}]),
+            ('dup-udf-link', [{'op': 'addfp', 'cid': 1, 'n': 5, 'iso': '/A.;1', 'udf': '/a'}, {'op': 'addlink', 'ons': 'i', 'old': '/A.;1', 'nns': 'u', 'new': '/a'}]),
+            ('dup-udf-symlink', [{'op': 'addfp', 'cid': 1, 'n': 5, 'iso': '/A.;1', 'udf': '/a'}, {'op': 'addsym', 'udf': '/a', 'utarget': 'x'}]),
+        ):
+            scenario(ctx, tmpdir, ub, ops, label)
+            ctx.count(key=label, kind='api:' + label)
+        rb = {'ilevel': 3, 'joliet': None, 'rr': '1.09', 'udf': None, 'xa': False}
+        scenario(ctx, tmpdir, rb, [{'op': 'addfp', 'cid': 1, 'n': 5, 'iso': '/A.;1', 'rr': 'same'}, {'op': 'addfp', 'cid': 2, 'n': 5, 'iso': '/B.;1', 'rr': 'same'}], 'dup-rr-name')
+        # field widths: names near the limits of the on-disc fields, all configurations
+        for lvl in (2, 3, 4):
+            for ln in (30, 31, 190, 200, 207, 208, 212, 220, 221, 222, 223, 230, 250, 254, 255, 300):
+                for xa in (False, True):
+                    for rr in (None, '1.09'):
+                        cfg = {'ilevel': lvl, 'joliet': None, 'rr': rr, 'udf': None, 'xa': xa}
+                        name = 'A' * ln
+                        op = {'op': 'adddir', 'iso': '/' + name}
+                        if rr:
+                            op['rr'] = 'r'
+                        scenario(ctx, tmpdir, cfg, [op], 'width-iso-dir:L%d:%d' % (lvl, ln))
+                        op2 = {'op': 'addfp', 'cid': 1, 'n': 3, 'iso': '/' + 'B' * max(1, ln - 6) + '.EXT;1'}
+                        if rr:
+                            op2['rr'] = 'r'
+                        scenario(ctx, tmpdir, cfg, [op2], 'width-iso-file:L%d:%d' % (lvl, ln))
+                        ctx.count(key=('width', lvl, ln, xa, rr), kind='api:width')
+        for ln in (100, 126, 127, 128, 200, 253, 254, 255, 256, 300, 1000):
+            cfg = {'ilevel': 3, 'joliet': None, 'rr': None, 'udf': '2.60', 'xa': False}
+            for ch in ('u', 'é', '中'):
+                scenario(ctx, tmpdir, cfg, [{'op': 'addfp', 'cid': 1, 'n': 3, 'iso': '/A.;1', 'udf': '/' + ch * ln}], 'width-udf-file:%d' % ln)
+                scenario(ctx, tmpdir, cfg, [{'op': 'adddir', 'iso': '/A', 'udf': '/' + ch * ln}], 'width-udf-dir:%d' % ln)
+                ctx.count(key=('udfwidth', ln, ch), kind='api:width-udf')
+        # depth rule
+        for lvl, rr, depth in ((1, None, 7), (1, None, 8), (3, None, 8), (4, None, 9), (1, '1.09', 9)):
+            cfg = {'ilevel': lvl, 'joliet': None, 'rr': rr, 'udf': None, 'xa': False}
+            ops = []
+            p = ''
+            for i in range(depth):
+                p += '/D%d' % i
+                op = {'op': 'adddir', 'iso': p}
+                if rr:
+                    op['rr'] = 'd%d' % i
+                ops.append(op)
+            res = scenario(ctx, tmpdir, cfg, ops, 'depth:L%d:%s:%d' % (lvl, rr, depth))
+            ctx.count(key=('depth', lvl, rr, depth), kind='api:depth')
+            if not rr and lvl < 4 and depth > 7 and res and res[-1] == 'ok':
+                ctx.violation('C13.depth', 'directory at depth %d accepted at level %d without Rock Ridge' % (depth, lvl), {'kind': 'history', 'cfg': cfg, 'ops': ops, 'label': 'depth'})
+    finally:
+        shutil.rmtree(tmpdir, ignore_errors=True)
+
+
 def run(ctx):
     run_fn(ctx)
-    isoapi.run_c13_api(ctx)
+    run_api(ctx)
     ctx.exhaustive = False
 
 
@@ -158,8 +309,15 @@ def replay(ctx, obj):
         core.log('impl=%s model=%s' % (a, b))
         if a != b:
             sigs.append(obj.get('signature', 'C13.fn'))
-    else:
-        sigs += isoapi.replay_api(ctx, obj)
+    elif r.get('kind') == 'history':
+        tmpdir = tempfile.mkdtemp(prefix='verif-c13-')
+        try:
+            scenario(ctx, tmpdir, r['cfg'], r['ops'], r.get('label', 'replay'))
+        finally:
+            shutil.rmtree(tmpdir, ignore_errors=True)
+        for v in ctx.violations:
+            core.log('violation:', v['signature'], v['summary'])
+        sigs += [v['signature'] for v in ctx.violations]
     return sigs
 
 LEVEL_TEXT = ('Lean 4 theorems: the identifier acceptance predicates equal the declarative naming rules for every byte string '
